@@ -2,6 +2,11 @@
 From Coq Require Import Extraction ExtrOcamlBasic ExtrOcamlZBigInt ZArith List.
 From TF Require Import Word MmrIdxLocal Mmr MmrSpec MmrTerm.
 Extraction Language OCaml.
+(* Z.pow by repeated multiplication costs O(exponent) big-integer products and dominated the oracle's
+   run time (2^k for every bit position k < 64 in the specification functions): map it to zarith's
+   power function (same value for exponents >= 0; 0 for negative exponents as in Coq). *)
+Extract Constant Z.pow =>
+  "(fun x y -> if Big_int_Z.sign_big_int y < 0 then Big_int_Z.zero_big_int else Big_int_Z.power_big_int_positive_big_int x y)".
 Extraction "../ocaml/gen_mmr/model.ml"
   term term_eqb term_hash0
   li_mt_pk rll_leaf l2n num_nodes peak_heights_and_indices node_indices_added_by_append
